@@ -43,6 +43,7 @@ def run(ctx):
     samplers(ctx, facts)
     truncation_formula(ctx, facts)
     sensitivity_wiring(ctx, facts)
+    excluded_share(ctx, facts)
     ctx.assume("the numerical law of the samplers (probabilities, find_smallest_n, achieved delta) is not decided; rand's Bernoulli/Uniform are trusted")
 
 
@@ -742,3 +743,39 @@ def sensitivity_wiring(ctx, facts):
         names = {n for n, _ in posreads[pos]}
         ctx.ob("FIELDS-noise", f"OPRFPaddingDp::new#arg{pos}:same-field-everywhere", len(names) == 1, f"argument {pos} is NoiseParams.{sorted(names)[0]} at all {len(posreads[pos])} sites" if len(names) == 1 else f"argument {pos} of OPRFPaddingDp::new is read from different NoiseParams fields: {sorted(posreads[pos])}")
     ctx.floor("FIELDS-noise", "OPRFPaddingDp::new argument positions fed from NoiseParams", len(posreads), 3)
+
+
+def excluded_share(ctx, facts):
+    """Dummy rows are generated by two helpers from shared randomness; the third holds zero.  The two must put the value
+    on the side they share with each other and ZERO on the side they share with the excluded helper."""
+    from rules.C17 import variant_arms
+    ctx.rule("SHARE-excluded: ReplicatedSecretSharing::new_excluding_direction(v, d) = new(ZERO, v) for d = Left and new(v, ZERO) for d = Right (the component shared with the excluded helper, which sits in direction d, is ZERO); the padding generators call it with their own direction-to-excluded-helper and the drawn dummy value")
+    b = facts.bodies.get("secret_sharing::replicated::ReplicatedSecretSharing::new_excluding_direction")
+    if b is None:
+        return ctx.missing("SHARE-excluded", "ReplicatedSecretSharing::new_excluding_direction")
+    ctx.count(bodies=1)
+    dom = b.dominators()
+    arms = variant_arms(b, "helpers::Direction", facts)
+    news = flow.find_calls(b, re.compile(r"ReplicatedSecretSharing::new$"))
+    ok, why = False, "no match on the direction with one new(..) per arm"
+    if arms and len(news) == 2:
+        table = {}
+        for name, tgt in arms[0][2].items():
+            for bb, t in news:
+                if flow.dominates(dom, tgt, bb):
+                    a0, a1 = (flow.expr_of(b, x) for x in t["args"])
+                    z0, z1 = (x[0] == "const" and str(x[1]).endswith("::ZERO") for x in (a0, a1))
+                    table[name] = ("ZERO" if z0 else ("v" if a0 == ("arg", 1) else "?"), "ZERO" if z1 else ("v" if a1 == ("arg", 1) else "?"))
+        ok = table == {"Left": ("ZERO", "v"), "Right": ("v", "ZERO")}
+        why = "Left => (ZERO, v), Right => (v, ZERO)" if ok else f"new_excluding_direction builds {table}: the value sits on the side shared with the excluded helper, so the two generating helpers hold inconsistent shares of the dummy and the excluded helper's zero share is wrong"
+    ctx.ob("SHARE-excluded", "zero-towards-excluded-helper", ok, why, site_of(b))
+    # callers
+    n = 0
+    for body in sorted(facts.non_test_bodies(), key=lambda x: x.path):
+        for bb, t in body.calls():
+            if (F.callee(t)[0] or "").endswith("ReplicatedSecretSharing::new_excluding_direction"):
+                n += 1
+                d = flow.expr_of(body, t["args"][1], max_depth=8)
+                okd = (d[0] == "arg" and len(d) == 2 and "Direction" in body.local_ty(d[1])) or (d[0] == "upvar" and len(d) == 2)
+                ctx.ob("SHARE-excluded", f"caller@{body.root.split('::')[-1]}#{n}", okd, "called with the pass's direction to the excluded helper" if okd else f"called with {str(d)[:80]} instead of the pass's direction to the excluded helper", site_of(body, bb))
+    ctx.floor("SHARE-excluded", "callers of new_excluding_direction", n, 1)
